@@ -36,7 +36,8 @@ type Prog struct {
 	NumPkgs  int
 	AllFuncs int
 	GOARCH   string
-	curFacts facts // facts of the path currently examined by reachCut (read by target predicates)
+	Roles    []string // helper functions recognised by role under a different declared name
+	curFacts facts    // facts of the path currently examined by reachCut (read by target predicates)
 }
 
 // CallSite is one resolved call.
@@ -56,6 +57,16 @@ func shortName(s string) string {
 func fname(fn *ssa.Function) string {
 	if fn == nil {
 		return "<nil>"
+	}
+	if cn, ok := canonName[fn]; ok {
+		return cn
+	}
+	if par := fn.Parent(); par != nil {
+		// closures inherit the (possibly canonical) name of their parent
+		s := shortName(fn.String())
+		if i := strings.LastIndex(s, "$"); i >= 0 {
+			return fname(par) + s[i:]
+		}
 	}
 	return shortName(fn.String())
 }
@@ -132,6 +143,7 @@ func (p *Prog) index() {
 		}
 		return fname(p.Fns[i]) < fname(p.Fns[j])
 	})
+	p.Roles = p.resolveRoles()
 	for _, fn := range p.Fns {
 		p.byName[fname(fn)] = fn
 		for _, b := range fn.Blocks {
